@@ -20,8 +20,18 @@ echo "demo command: $CMD" | tee -a $OUT/confirm.txt
 ( eval "$CMD" ) > $OUT/demo_without_patch.log 2>&1; echo "demo-without-patch exit=$?" | tee -a $OUT/confirm.txt
 git -C /repo worktree remove --force $WT
 # run my checks against the patched /repo
-git -C /repo apply $OUT/patch.diff || { echo "cannot apply to /repo"; exit 2; }
+# SEED_WT=1: run the checks against a scratch worktree (VERIF_REPO) instead of patching /repo
+# (used while a long check of the unchanged tree is running elsewhere); the batch confirmation
+# with the patch applied to /repo itself is done by seedcheck.sh afterwards
+if [ -n "${SEED_WT:-}" ]; then
+  CW=/var/tmp/spc.$$; git -C /repo worktree add -q $CW HEAD || exit 2
+  ( cd $CW && git apply $OUT/patch.diff ) || { echo "cannot apply"; git -C /repo worktree remove --force $CW; exit 2; }
+  export VERIF_REPO=$CW
+else
+  git -C /repo apply $OUT/patch.diff || { echo "cannot apply to /repo"; exit 2; }
+fi
 : > $OUT/checks.txt
+[ -n "${SEED_WT:-}" ] && echo "# run against a scratch worktree of /repo HEAD with the patch applied (VERIF_REPO)" >> $OUT/checks.txt
 for c in $CHECKS; do
   r=$(/verif/check $c quick 2>&1); rc=$?
   echo "== $c quick rc=$rc" >> $OUT/checks.txt; echo "$r" | grep "by rule\|^VIOLATION\|^  rule\|quick:" | cut -c1-300 >> $OUT/checks.txt
@@ -30,5 +40,5 @@ for c in $CHECKS; do
     echo "== $c 12000 runs rc=$rc" >> $OUT/checks.txt; echo "$r" | grep "by rule\|^VIOLATION\|^  rule\|quick:" | cut -c1-300 >> $OUT/checks.txt
   fi
 done
-git -C /repo checkout -- . ; git -C /repo status --short
+if [ -n "${SEED_WT:-}" ]; then git -C /repo worktree remove --force $CW; else git -C /repo checkout -- . ; git -C /repo status --short; fi
 cat $OUT/confirm.txt; cat $OUT/checks.txt
